@@ -39,3 +39,49 @@ func init() {
 		}
 	}
 }
+
+// foldEq: two bytes are equal under ASCII case folding.
+func foldEq(tf *TF, a, b *Term) *Term {
+	lowerA := tf.And(tf.Le(tf.Int('a'), a), tf.Le(a, tf.Int('z')))
+	upperA := tf.And(tf.Le(tf.Int('A'), a), tf.Le(a, tf.Int('Z')))
+	return tf.Or(tf.Eq(a, b), tf.And(lowerA, tf.Eq(tf.Sub(a, tf.Int(32)), b)), tf.And(upperA, tf.Eq(tf.Add(a, tf.Int(32)), b)))
+}
+
+func init() {
+	// strings.EqualFold over ASCII (the harness alphabet); longer symbolic strings than 8 bytes are unsupported.
+	stubs["strings.EqualFold"] = func(e *Exec, fr *Frame, fn *ssa.Function, a []Value) Value {
+		tf := e.tf
+		x, y := a[0].(StrV), a[1].(StrV)
+		if cx, ok := x.Const(); ok {
+			if cy, ok := y.Const(); ok {
+				return tf.Bool(strings.EqualFold(cx, cy))
+			}
+		}
+		chars := func(s StrV) []*Term {
+			if s.IsCh {
+				return s.Chars
+			}
+			st := s.Term(tf)
+			for n := 0; n <= 8; n++ {
+				if e.decide(tf.Eq(tf.StrLen(st), tf.Int(int64(n)))) {
+					cs := make([]*Term, n)
+					for i := range cs {
+						cs[i] = tf.CodeAt(st, tf.Int(int64(i)))
+					}
+					return cs
+				}
+			}
+			e.unsupported("strings.EqualFold of a symbolic string longer than 8")
+			return nil
+		}
+		cx, cy := chars(x), chars(y)
+		if len(cx) != len(cy) {
+			return tf.Bool(false)
+		}
+		eq := tf.Bool(true)
+		for i := range cx {
+			eq = tf.And(eq, foldEq(tf, cx[i], cy[i]))
+		}
+		return eq
+	}
+}
